@@ -193,6 +193,9 @@ type refRecvCfg struct {
 	// request script: ids to request; "when" says at which point: after seeing STAT index k (k>=0), or -1 = after the end marker
 	Reqs [][2]int // [id, afterStat]
 	Seed int64
+	// Stall: after the end marker was seen and every request was handed to the stream, stop reading
+	// (a blocked/slow peer) until the stream is torn down
+	Stall bool
 }
 
 type refRecvResult struct {
@@ -291,6 +294,11 @@ func runRefReceiver(ep *endpoint, cfg refRecvCfg) *refRecvResult {
 			if p.Stat == nil {
 				res.EndSeen++
 				sendReqsFor(-1)
+				if cfg.Stall {
+					<-ep.sh.torn
+					res.Err = "stalled"
+					return res
+				}
 			} else {
 				if res.EndSeen > 0 {
 					res.Err = "stat-after-end"
